@@ -242,7 +242,9 @@ func TestC16_P_AutoShardedFaults(t *testing.T) {
 			ext[e.Cid] = true
 		}
 		entries := pbEntries(es)
-		run := func(st *Store) (datamodel.Link, uint64, error) { return builder.BuildUnixFSDirectory(entries, st.LinkSystem()) }
+		run := func(st *Store) (datamodel.Link, uint64, error) {
+			return builder.BuildUnixFSDirectory(entries, st.LinkSystem())
+		}
 		clean := NewStore()
 		link, _, err := run(clean)
 		if err != nil || link == nil {
@@ -391,4 +393,60 @@ func TestC16_P_RepointedLinkSystem(t *testing.T) {
 		ev.Case(fmt.Sprintf("%s n=%s fault=%v", kind, bucket(len(es)), fault), true, "kind:"+kind, fmt.Sprintf("fault:%v", fault))
 		ev.Sample(map[string]any{"kind": kind, "entries": len(es), "fault_on_second_store": fault})
 	})
+}
+
+// The quick builder panics when a write fails. A caller that recovers inside the Store callback and builds the same
+// content again (a retry, or simply a second identical file) must end up with a store without dangling links: whatever
+// the builder hands out as stored has been committed.
+func TestC16_R_QuickBuilderRetryAfterFailedWrite(t *testing.T) {
+	for _, size := range []int{10, 300000} { // one block / root + two leaves
+		for _, stage := range []string{"open", "write", "commit"} {
+			for k := 1; k <= 3; k++ {
+				st := NewStore()
+				switch stage {
+				case "open":
+					st.FailOpenAt = k
+				case "write":
+					st.FailWriteAt = k
+				default:
+					st.FailCommitAt = k
+				}
+				data := lcgBytes(size, 5, 0)
+				var dir cid.Cid
+				panicked := false
+				err := quickbuilder.Store(st.LinkSystem(), func(b *quickbuilder.Builder) error {
+					// every step is retried after a recovered panic (the fault hits the k-th write only)
+					retry := func(step func()) {
+						for attempt := 0; attempt < 4; attempt++ {
+							ok := func() (ok bool) {
+								defer func() {
+									if recover() != nil {
+										panicked = true
+									}
+								}()
+								step()
+								return true
+							}()
+							if ok {
+								return
+							}
+						}
+						t.Fatalf("C16 quick retry: step keeps panicking")
+					}
+					var f, d quickbuilder.Node
+					retry(func() { b.NewBytesFile(data) })
+					retry(func() { f = b.NewBytesFile(data) })
+					retry(func() { d = b.NewMapDirectory(map[string]quickbuilder.Node{"f": f}) })
+					dir = cidOf(d.Link())
+					return nil
+				})
+				if err != nil {
+					t.Fatalf("C16 quick retry (%d bytes, %s #%d): %v", size, stage, k, err)
+				}
+				if _, dangling := st.Reachable(dir); len(dangling) > 0 {
+					t.Fatalf("C16: quick builder, %d-byte file, write #%d failing at %s (panicked=%v, recovered, same content built again): the directory %s was stored but %d block(s) of its DAG never were, e.g. %s", size, k, stage, panicked, dir, len(dangling), dangling[0])
+				}
+			}
+		}
+	}
 }
